@@ -22,8 +22,16 @@ def orders(k):
             yield perm
 
 
+FIXED_NAMES = ["UTC", "UTC0", "Fixed/UTC+24:00:00", "Fixed/UTC-24:00:00", "Fixed/UTC+23:59:59", "Fixed/UTC-23:59:59",
+               "Fixed/UTC+00:00:01", "Fixed/UTC-00:00:01", "Fixed/UTC+00:00:00", "Fixed/UTC-00:00:00", "Fixed/UTC+12:34:56",
+               "Fixed/UTC-12:34:56", "Fixed/UTC+00:99:99", "Fixed/UTC+24:00:01", "Fixed/UTC-24:00:01", "Fixed/UTC+0a:00:00"]
+
+
 def schedules(tier, rng, op):
     out = []
+    # the factory must never see UTC / fixed-offset names (and must see malformed look-alikes)
+    for n in FIXED_NAMES:
+        out.append("%s S0:%s R0 S1:%s R1 S0:%s R0" % (op, n, n, n))
     ks = [1, 2, 3] if tier == "quick" else [1, 2, 3, 4]
     for k in ks:
         ords = list(orders(k))
